@@ -23,8 +23,13 @@ fn is_removable_character(c: char) -> bool {
 }
 
 fn skip_trailing_characteres(text: &str) -> Option<usize> {
+    let mut rest = text;
     for (index, c) in text.chars().rev().enumerate() {
-        if !is_removable_character(c) {
+        rest = &rest[..rest.len() - c.len_utf8()];
+        // A removable character escaped by a backslash is the second half
+        // of a `quoted-pair`: it belongs to the text and ends the trimming
+        let escaped = rest.chars().rev().take_while(|b| *b == '\\').count() % 2 == 1;
+        if !is_removable_character(c) || escaped {
             return Some(index);
         }
     }
